@@ -14,6 +14,7 @@ import (
 	"time"
 
 	"codeberg.org/TauCeti/mangle-go/zzsim/harness"
+	"codeberg.org/TauCeti/mangle-go/zzsim/simrt"
 )
 
 func main() {
@@ -87,7 +88,13 @@ func main() {
 			fmt.Fprintln(os.Stderr, "unknown probe", rf.Probe)
 			os.Exit(2)
 		}
-		o, r := harness.ExecTape(p, rf.Tape, harness.Tier(rf.Tier))
+		var o harness.Outcome
+		var r *simrt.Run
+		if rf.SeedOnly {
+			o, r = harness.ExecSeed(p, rf.Seed, harness.Tier(rf.Tier))
+		} else {
+			o, r = harness.ExecTape(p, rf.Tape, harness.Tier(rf.Tier))
+		}
 		res := map[string]any{"class": o.Class, "msg": o.Msg, "trace_hash": fmt.Sprintf("%016x", r.Hash()),
 			"expected_class": rf.Class, "expected_trace_hash": rf.TraceHash,
 			"reproduced": o.Class == rf.Class && fmt.Sprintf("%016x", r.Hash()) == rf.TraceHash}
